@@ -749,6 +749,13 @@ func (f *Frame) contractCall(c *ssa.CallCommon, ct *FuncContract, callee *ssa.Fu
 			ex.assume(implies(f.pc, "(=> (not (= "+t+" (- 1))) (= "+t+" "+o.addr+"))"))
 		}
 	}
+	if ct.Functional && len(rv.Tup) == 1 {
+		var as []string
+		for _, a := range args {
+			as = append(as, a.T)
+		}
+		ex.assume(implies(f.pc, "(= "+rv.Tup[0].T+" ("+extName(ct.Key)+" "+strings.Join(as, " ")+"))"))
+	}
 	for _, e := range ct.Ensures {
 		if len(e.Ghost) > 0 && e.GhostPattern != nil && !mentions(e.Term, ghostNames) && !frameOnly {
 			// a relational clause with trigger terms: assumed as a quantified formula (instantiated by matching)
